@@ -88,6 +88,7 @@ type Ev struct {
 	Fr    *Frame
 	Instr ssa.Instruction
 	Note  string
+	Stop  bool // the call that produced this event is not descended into
 }
 
 type evList struct {
@@ -120,6 +121,44 @@ type State struct {
 	facts  *factList
 	edges  *edgeList
 	defers *deferList
+	writes *writeList // possible writes to fields seen so far on the path
+	cells  *cellList  // last value stored to local variable cells on the path
+}
+
+type cellList struct {
+	fr   *Frame
+	a    *ssa.Alloc
+	val  Ref
+	next *cellList
+}
+
+func (s State) cell(fr *Frame, a *ssa.Alloc) (Ref, bool) {
+	for c := s.cells; c != nil; c = c.next {
+		if c.fr == fr && c.a == a {
+			return c.val, true
+		}
+	}
+	return Ref{}, false
+}
+
+type writeList struct {
+	f    *types.Var
+	n    int
+	next *writeList
+}
+
+func (s State) epoch(f *types.Var) int {
+	for w := s.writes; w != nil; w = w.next {
+		if w.f == f {
+			return w.n
+		}
+	}
+	return 0
+}
+
+func (s State) bump(f *types.Var) State {
+	s.writes = &writeList{f: f, n: s.epoch(f) + 1, next: s.writes}
+	return s
 }
 
 func (s State) emit(e Ev) State {
@@ -202,6 +241,7 @@ type Tracer struct {
 	Trunc   bool   // path budget exhausted
 	Escapes []string // closures handed to unknown code
 	Init    func(t *Tracer)
+	cur     State // state at the instruction being classified (for path-sensitive Resolve)
 	cellMemo map[ssa.Value]*cellInfo
 }
 
@@ -265,6 +305,7 @@ func (t *Tracer) execBlock(fr *Frame, b *ssa.BasicBlock, idx int, st State, k fu
 	}
 	for i := idx; i < len(b.Instrs); i++ {
 		in := b.Instrs[i]
+		t.cur = st
 		switch x := in.(type) {
 		case *ssa.If:
 			t.execIf(fr, x, st, k)
@@ -310,6 +351,19 @@ func (t *Tracer) execBlock(fr *Frame, b *ssa.BasicBlock, idx int, st State, k fu
 			for _, e := range t.classify(fr, in) {
 				st = st.emit(e)
 			}
+			if sx, ok := in.(*ssa.Store); ok {
+				if fa, ok := sx.Addr.(*ssa.FieldAddr); ok {
+					if fv := fieldOfAddr(fa); fv != nil {
+						st = st.bump(fv)
+					}
+				}
+				t.cur = st
+				if cr := t.Resolve(fr, sx.Addr); cr.V != nil {
+					if al, ok := cr.V.(*ssa.Alloc); ok {
+						st.cells = &cellList{fr: cr.Fr, a: al, val: t.Resolve(fr, sx.Val), next: st.cells}
+					}
+				}
+			}
 		}
 	}
 }
@@ -351,15 +405,25 @@ func (t *Tracer) follow(fr *Frame, from, to *ssa.BasicBlock, st State, k func(St
 }
 
 func (t *Tracer) execIf(fr *Frame, i *ssa.If, st State, k func(State, []Ref)) {
-	key, neg := t.condKey(fr, i.Cond)
+	t.cur = st
+	key, neg, lhs, cst := t.condKey(fr, i.Cond, st)
 	dirs := []bool{true, false}
 	if c, ok := constBool(i.Cond); ok {
 		dirs = []bool{c}
 	} else if key != "" {
 		if v, ok := st.fact(key); ok {
 			dirs = []bool{v != neg}
+		} else if lhs != "" {
+			// x == c2 is false once x == c1 (c1 != c2) is known on this path
+			for f := st.facts; f != nil; f = f.next {
+				if f.val && strings.HasPrefix(f.key, "eq("+lhs+",const:") && f.key != key {
+					dirs = []bool{neg}
+					break
+				}
+			}
 		}
 	}
+	_ = cst
 	b := i.Block()
 	for _, d := range dirs {
 		st2 := st
@@ -367,6 +431,7 @@ func (t *Tracer) execIf(fr *Frame, i *ssa.If, st State, k func(State, []Ref)) {
 			st2 = st2.withFact(key, d != neg)
 		}
 		if t.Spec.Branch != nil {
+			t.cur = st2
 			for _, e := range t.Spec.Branch(t, fr, i, d) {
 				if e.Fr == nil {
 					e.Fr = fr
@@ -388,27 +453,37 @@ func (t *Tracer) execIf(fr *Frame, i *ssa.If, st State, k func(State, []Ref)) {
 // condKey canonicalises a branch condition so that repeated tests of the same
 // thing agree along a path. The returned key names a proposition; neg says
 // the condition is its negation.
-func (t *Tracer) condKey(fr *Frame, c ssa.Value) (string, bool) {
+func (t *Tracer) condKey(fr *Frame, c ssa.Value, st State) (key string, neg bool, lhs string, isConst bool) {
 	switch x := c.(type) {
 	case *ssa.UnOp:
 		if x.Op == token.NOT {
-			k, n := t.condKey(fr, x.X)
-			return k, !n
+			k, n, l, cc := t.condKey(fr, x.X, st)
+			return k, !n, l, cc
 		}
 	case *ssa.BinOp:
 		if x.Op == token.EQL || x.Op == token.NEQ {
-			l, r := t.Resolve(fr, x.X), t.Resolve(fr, x.Y)
-			lk, rk := l.Key(), r.Key()
-			if _, ok := r.V.(*ssa.Const); !ok {
-				if _, ok2 := l.V.(*ssa.Const); ok2 {
-					lk, rk = rk, lk
-				}
+			lk, rk := t.valKey(fr, x.X, st), t.valKey(fr, x.Y, st)
+			if !strings.HasPrefix(rk, "const:") && strings.HasPrefix(lk, "const:") {
+				lk, rk = rk, lk
 			}
-			return "eq(" + lk + "," + rk + ")", x.Op == token.NEQ
+			if strings.HasPrefix(rk, "const:") {
+				return "eq(" + lk + "," + rk + ")", x.Op == token.NEQ, lk, true
+			}
+			return "eq(" + lk + "," + rk + ")", x.Op == token.NEQ, "", false
 		}
 	}
-	r := t.Resolve(fr, c)
-	return "v(" + r.Key() + ")", false
+	return "v(" + t.valKey(fr, c, st) + ")", false, "", false
+}
+
+// valKey names a value for correlation: a load of a field is named by its
+// base, the field and the number of possible writes to that field seen so
+// far on the path, so that two loads with nothing in between agree.
+func (t *Tracer) valKey(fr *Frame, v ssa.Value, st State) string {
+	r := t.Resolve(fr, v)
+	if f, base := fieldLoad(r.V); f != nil {
+		return fmt.Sprintf("fld(%s.%s#%d)", t.valKey(r.Fr, base, st), f.Name(), st.epoch(f))
+	}
+	return r.Key()
 }
 
 // ---------------------------------------------------------------------------
@@ -456,6 +531,12 @@ func (t *Tracer) Resolve(fr *Frame, v ssa.Value) Ref {
 			if x.Op == token.MUL {
 				cell := t.Resolve(fr, x.X)
 				if a, ok := cell.V.(*ssa.Alloc); ok {
+					if cv, ok := t.cur.cell(cell.Fr, a); ok && cv.V != nil {
+						if _, self := cv.V.(*ssa.UnOp); !self {
+							fr, v = cv.Fr, cv.V
+							continue
+						}
+					}
 					if st := t.singleStore(a); st != nil {
 						// the store is in the alloc's own function: same frame
 						if st.Parent() == a.Parent() {
@@ -531,10 +612,18 @@ func (t *Tracer) singleStore(a *ssa.Alloc) *ssa.Store {
 func (t *Tracer) execCall(fr *Frame, c ssa.CallInstruction, st State, k func(State)) {
 	com := c.Common()
 	_, isGo := c.(*ssa.Go)
+	t.cur = st
+	stop := false
 	for _, e := range t.classify(fr, c) {
 		st = st.emit(e)
+		if e.Stop {
+			stop = true
+		}
 	}
-	if fr.Depth >= t.Spec.MaxDepth {
+	if stop || fr.Depth >= t.Spec.MaxDepth {
+		for _, f := range t.P.MayWrite(c) {
+			st = st.bump(f)
+		}
 		k(st)
 		return
 	}
@@ -566,6 +655,9 @@ func (t *Tracer) execCall(fr *Frame, c ssa.CallInstruction, st State, k func(Sta
 	args := callArgs(com)
 	if callee != nil {
 		if tbl := t.combs(callee); tbl != nil {
+			for _, f := range t.P.MayWrite(c) {
+				st = st.bump(f)
+			}
 			t.runCombArgs(fr, c, callee, tbl, args, 0, st, k)
 			return
 		}
@@ -589,7 +681,10 @@ func (t *Tracer) execCall(fr *Frame, c ssa.CallInstruction, st State, k func(Sta
 		}
 	}
 
-	// 4. anything else: closures handed to unknown code are recorded
+	// 4. anything else: the callee may write fields (invalidates correlated loads)
+	for _, f := range t.P.MayWrite(c) {
+		st = st.bump(f)
+	}
 	for _, a := range args {
 		r := t.Resolve(fr, a)
 		if mc, ok := r.V.(*ssa.MakeClosure); ok {
